@@ -36,7 +36,7 @@ pub enum Op<T, A: Ord> {
 
 /// usage hypotheses on the actor type of a List
 pub open spec fn list_ok<A: Ord + Clone>() -> bool {
-    actor_ok::<A>() && clone_ok::<A>() && node_ok::<OrdDot<A>>() && vstd::laws_cmp::obeys_cmp::<Id<A>>()
+    actor_ok::<A>() && clone_ok::<A>() && node_ok::<OrdDot<A>>() && crate::identifier::between_ok::<OrdDot<A>>() && vstd::laws_cmp::obeys_cmp::<Id<A>>()
         && vstd::std_specs::btree::key_obeys_cmp_spec::<Id<A>>()
 }
 
